@@ -193,40 +193,10 @@ theorem Quat_toMatrix33_eulerQuatSC {α : Type} [CommRing α] (o : Ord) (s1 c1 s
   unfold eulerQuatSC eulerMatSC
   rw [quatHom_qmul, quatHom_qmul, quatHom_axisQ _ _ _ h1, quatHom_axisQ _ _ _ h2, quatHom_axisQ _ _ _ h3, Matrix.mul_assoc]
 
-/-! ## the 24 extracted `toMatrix33` / `toQuat` as products (no hypotheses on `sin`, `cos`) -/
+/-! ## tactic: unfold the spec-side tables at a concrete order -/
 
 /-- unfold the spec-side tables at a concrete order -/
 macro "ordtabs" : tactic => `(tactic| simp only [mul33, rotAxM, qmul, axisQ, angles, ng, sg, ngq, Ord.i_table, Ord.j_table,
   Ord.h_table, Ord.k_table, Ord.static_table, Ord.even_table, Ord.repeated_table, if_true, if_false, Bool.false_eq_true])
-
-set_option maxHeartbeats 4000000 in
-theorem toM33_raw {α : Type} [Field α] (o : Ord) (sin cos : α → α) (a : V3 α) :
-    toM33 o sin cos a =
-      mul33 (mul33 (rotAxM o.i (sg o.even (sin (ng o.even (angles o a).1))) (cos (ng o.even (angles o a).1)))
-                   (rotAxM o.j (sg o.even (sin (ng o.even (angles o a).2.1))) (cos (ng o.even (angles o a).2.1))))
-                   (rotAxM o.h (sg o.even (sin (ng o.even (angles o a).2.2))) (cos (ng o.even (angles o a).2.2))) := by
-  cases o <;>
-  (unfold_toM33
-   ordtabs
-   apply M33.ext' <;> ring)
-
-theorem toM33_raw_toMat {α : Type} [Field α] (o : Ord) (sin cos : α → α) (a : V3 α) :
-    (toM33 o sin cos a).toMat =
-      eulerMatSC o (sg o.even (sin (ng o.even (angles o a).1))) (cos (ng o.even (angles o a).1))
-                   (sg o.even (sin (ng o.even (angles o a).2.1))) (cos (ng o.even (angles o a).2.1))
-                   (sg o.even (sin (ng o.even (angles o a).2.2))) (cos (ng o.even (angles o a).2.2)) := by
-  rw [toM33_raw, mul33_toMat, mul33_toMat, rotAxM_toMat, rotAxM_toMat, rotAxM_toMat, eulerMatSC]
-
-set_option maxHeartbeats 4000000 in
-theorem toQuat_raw {α : Type} [Field α] (o : Ord) (sin cos : α → α) (a : V3 α) :
-    toQuat o sin cos a =
-      eulerQuatSC o (sin ((angles o a).1 * (1 / 2))) (cos ((angles o a).1 * (1 / 2)))
-                    (sg o.even (sin (ngq o.even (angles o a).2.1 * (1 / 2)))) (cos (ngq o.even (angles o a).2.1 * (1 / 2)))
-                    (sin ((angles o a).2.2 * (1 / 2))) (cos ((angles o a).2.2 * (1 / 2))) := by
-  cases o <;>
-  (unfold_toQuat
-   simp only [eulerQuatSC]
-   ordtabs
-   apply Quat.ext' <;> ring)
 
 end ImathVerif.Euler
